@@ -649,6 +649,11 @@ fn handle_conn_err<T: CmdTask>(
     tasks: Vec<T>,
     err: &BackendError,
 ) -> Option<RetryState<T>> {
+    if tasks.is_empty() {
+        // Nothing is waiting for a reply: there is nothing to retry
+        // and no retry count to carry over to the next connection.
+        return None;
+    }
     let retry_times = retry_times_opt.unwrap_or(0);
     if retry_times >= MAX_BACKEND_RETRY {
         for task in tasks.into_iter() {
